@@ -20,6 +20,7 @@ Next == \/ ~s.replace /\ ~s.patch /\ s' = [s EXCEPT !.replace = TRUE]
 Spec == Init /\ [][Next]_s
 
 Tgt == SObj(Props1("q", SInt), {"q"})
+BoundedInt == [type |-> "integer", minimum |-> JInt(0), maximum |-> JInt(255)]
 RefT == SRef("Tgt")
 Hub == SObj(
     Props3("direct", RefT, "opt", RefT, "nul", SNullable(RefT))
@@ -32,7 +33,8 @@ Hub == SObj(
  @@ Props3("keymap", [type |-> "object", propertyNames |-> [type |-> "string", pattern |-> "^a+$"], additionalProperties |-> STrue],
            "patmap", [type |-> "object", patternProperties |-> ("^a" :> STrue)],
            "keymapint", [type |-> "object", propertyNames |-> [type |-> "string", pattern |-> "^a+$"], additionalProperties |-> SInt])
- @@ Props2("odd", SRef("3d-point"), "oddarr", SArr(SRef("3d-point"))),
+ @@ Props2("odd", SRef("3d-point"), "oddarr", SArr(SRef("3d-point")))
+ @@ Props3("byte", BoundedInt, "bytearr", SArr(BoundedInt), "otherbound", [type |-> "integer", minimum |-> JInt(0), maximum |-> JInt(1000)]),
     {"direct", "tup", "nested"})
 HubVar == SOneOf(<< ExtVar("A", RefT), ExtVar("B", SInt), ExtVar("N", SNum) >>)
 Other == SObj(Props3("s", SStr, "n", SInt, "m", SMap(SStr)), {"s"})
@@ -66,7 +68,9 @@ Settings ==
                                     Col |-> [rename |-> "ColR", derives |-> << >>]]] ELSE << >>)
     @@ (IF s.convert # "none"
         THEN [convert |-> << [schema |-> IF s.convert = "bare" THEN SNum ELSE With(SNum, "description", "a number"),
-                              ty |-> "crate::support::Num", impls |-> <<"Display">>] >>] ELSE << >>)
+                              ty |-> "crate::support::Num", impls |-> <<"Display">>],
+                             (* a conversion whose schema carries numeric validation *)
+                             [schema |-> BoundedInt, ty |-> "crate::support::ReplT", impls |-> << >>] >>] ELSE << >>)
 
 ProbesFor(def, sch) == LET cs == Candidates(sch, Defs, 2) IN
     [j \in DOMAIN cs |-> [kind |-> "deser", ty |-> [def |-> def], val |-> cs[j], on |-> def]]
